@@ -83,6 +83,48 @@ def styles_for(sd):
             ("r", apidoc.Style(pathref=0.8, rnd=random.Random(sd + 6)))]
 
 
+def unused_macro_contributes_nothing(chk):
+    """the catalog contains what the document declares and nothing else: a MACRO that is never pasted - whatever it holds -
+    leaves the catalog as it is without it (two real runs)"""
+    import json
+    import rel
+    from common import harness
+    base = ('JSIGHT 0.3\nINFO\n  Title "T"\n  Version 1\nENUM @zused\n[\n  "a"\n]\nTYPE @zt\n{\n  "e": "a" // {enum: @zused}\n}\n'
+            'TAG @ztag\nGET /zx\n  Tags @ztag\n  200 @zt\n')
+    bodies = {
+        "enum": ["ENUM @zsecret // never pasted", "[", '  "x", // note', "  2", "]"], "type": ["TYPE @zsecrettype", "{", '  "s": 1', "}"],
+        "server": ["SERVER @zsecretserver", '  BaseUrl "http://secret"'], "method": ["GET /zsecret/{id}", "  Path", "  {", '    "id": 1', "  }", "  200 any"],
+        "rpc": ["URL /zsecretrpc", "  Protocol json-rpc-2.0", "  Method zm", "    Result", "    {}"], "response": ["404 any"],
+        "enum_and_user": ["ENUM @zsecret2", "[", "  1", "]", "TYPE @zuser2", "{", '  "v": 1 // {enum: @zsecret2}', "}"],
+        "paste_of_another": ["PASTE @zother"],
+    }
+    cases = [rel.case("um_base", base)]
+    for nm, body in bodies.items():
+        extra = "MACRO @zother\n(\n  ENUM @zinother\n  [\n    1\n  ]\n)\n" if nm == "paste_of_another" else ""
+        mac = "MACRO @zunused\n(\n" + "".join("  " + x + "\n" for x in body) + ")\n" + extra
+        cases.append(rel.case("um_%s_end" % nm, base + mac))
+        cases.append(rel.case("um_%s_begin" % nm, base.replace("INFO\n", mac + "INFO\n", 1)))
+    obs = harness("run", cases)
+    b = obs["um_base"]
+    if b["outcome"] != "ok":
+        return
+    for c in cases[1:]:
+        o = obs[c["id"]]
+        chk.evaluations += 1
+        chk.traces += 1
+        chk.nontrivial.add(c["id"])
+        bad = None
+        if o["outcome"] != "ok":
+            bad = "not accepted: %s" % rel.describe(o)
+        elif json.loads(o["json"]) != json.loads(b["json"]):
+            bad = "the catalog differs from the catalog without the macro: %s" % apidoc.first_diff(json.loads(b["json"]), json.loads(o["json"]), "json")
+        if bad:
+            sig = {"what": "unused macro contributes", "variant": c["id"]}
+            text = common.unb64(c["files"]["main.jst"]).decode()
+            chk.violation("a MACRO that is never pasted (%s): %s | document:\n%s" % (c["id"], bad, text),
+                          {"kind": "unused_macro", "file": text, "file_without": base, "signature": sig}, sig)
+
+
 def type_entry_users(chk):
     """the catalog entry of a user type says what its TYPE directive declares - whoever uses the type: as a Path body
     (directly, through an alias), as a body, as a base, in a Query or not at all.  Two real runs compared entry by entry."""
@@ -158,6 +200,7 @@ def main(tier):
         total += compare(chk, "C04", docs, "s%d_" % i, styles)
     chk.extra["documents_compared"] = total
     type_entry_users(chk)
+    unused_macro_contributes_nothing(chk)
     chk.rule = ("documents = random abstract API models generated by the JSightApi spec (info, servers, types in four "
                 "notations with references/arrays/enums/allOf, enums, tags, URL blocks, path-bearing methods, JSON-RPC "
                 "blocks, queries, requests and responses in param/inline/child-Body form, headers, Path declarations), "
@@ -171,6 +214,13 @@ def main(tier):
 def replay(path):
     rp = json.load(open(path))["replay"]
     chk = Check("C04", "quick")
+    if rp.get("kind") == "unused_macro":
+        import rel
+        o = harness("run", [rel.case("a", rp["file_without"]), rel.case("b", rp["file"])])
+        chk.evaluations = 1
+        if o["b"]["outcome"] != "ok" or json.loads(o["a"]["json"]) != json.loads(o["b"]["json"]):
+            chk.violation("reproduced", rp, rp.get("signature"))
+        return chk.finish()
     if rp.get("kind") == "type_users":
         import rel
         o = harness("run", [rel.case("a", rp["file_without_user"]), rel.case("b", rp["file"])])
